@@ -178,6 +178,20 @@ CLAIMED = {
          'and that every container id the sniffer can return is the first entry of a handler SUPPORTED_TYPES table (static or promoted initialiser values).'),
    note='Undecided: equality of whole reports; entry points that take a hint without sniffing (manifest-data, fragment, ingredient variants) are outside the clause and listed in the evidence. Trusted base: ' + TRUSTED,
    design='5/C11'),
+ 'C13': dict(
+   technique='MIR dominance/origin rules on the range-hashing function (end-of-data guard coverage, checked arithmetic on caller values, worker hand-off ownership, source of hashed bytes)',
+   text=('Decides that the data-length comparisons exist, reject on their true edge and dominate every use of a supplied range; that the bound compared with the data length is derived from every supplied range; '
+         'that caller-supplied start/length values are combined only through checked arithmetic whose None result returns Err; that the worker closure owns its captures, updates then sends the hasher, that the hasher '
+         'reaching finalize comes only from the constructor or rx.recv() and a lost hasher returns Err; and that every Hasher::update argument is a buffer that passed read_exact on the input stream (or the BMFF offset marker under its test).'),
+   note='Undecided: digest equality with a reference, the overlap/sort algebra, chunk-size independence of the value. Trusted base: ' + TRUSTED,
+   design='5/C13'),
+ 'C30': dict(
+   technique='writer/reader agreement rules on MIR (constructor class of the XMP attribute writer vs unescaping class of the reader; key constants; capability tables of the handlers; argument origins)',
+   text=('Decides that the XMP attribute writer and reader agree on escaping (escaping constructor <-> unescape), that add_provenance and extract_provenance use the same key and the namespace is declared, that every RemoteRefEmbed '
+         'implementation reaches add_provenance with the caller\'s reference and its type also implements read_xmp and advertises the writer, that the XMP given to add_provenance is the asset\'s existing XMP (MIN_XMP only as the absent default), '
+         'and that add_xmp_key copies the attributes/events it does not rewrite.'),
+   note='Undecided: URL normalisation, container-level placement of the XMP packet per format, tag-form (element) provenance values written by other tools. Trusted base: ' + TRUSTED + '; quick_xml: From<(&str,&str)> for Attribute escapes, From<(&[u8],&[u8])> does not',
+   design='5/C30'),
 }
 
 NA_REASONS = {
